@@ -18,6 +18,10 @@ var mkNames = []string{"a", "b", "em", "wave", "c1", "é"}
 
 func genMarkupLine(tp *Tape, id string, allowFail bool) (string, bool) {
 	var sb strings.Builder
+	// a character prefix shared by several lines, with varying whitespace after the colon
+	if tp.Chance(30, "charprefix") {
+		sb.WriteString([]string{"Mae", "Bob", "Zoë"}[tp.Int(0, 2, "charname")] + []string{": ", ":", ":   ", " : ", ":\t"}[tp.Int(0, 4, "charspace")])
+	}
 	sb.WriteString(id)
 	var open []string
 	fails := false
@@ -226,8 +230,8 @@ func c14RunnerExec(plan *Plan, st *Stats) *Violation {
 			key := ""
 			c := ""
 			switch {
-			case r.Kind == rLine && strings.HasPrefix(r.Text, "SH"):
-				key = strings.Fields(r.Text)[0]
+			case r.Kind == rLine && sharedID(r.Text) != "":
+				key = sharedID(r.Text)
 				c = canonJSON(parseCanon{Text: el.Line.Text, Attrs: el.Line.Attributes})
 				attrs += len(el.Line.Attributes)
 			case r.Kind == rError:
@@ -259,6 +263,25 @@ func c14RunnerExec(plan *Plan, st *Stats) *Violation {
 		}
 	}
 	return nil
+}
+
+// sharedID finds the id word (SH<n>) of a shared line, which may follow a character prefix.
+func sharedID(text string) string {
+	for _, f := range strings.Fields(text) {
+		if i := strings.Index(f, "SH"); i >= 0 && (i == 0 || f[i-1] == ':') {
+			id := f[i:]
+			for j, c := range id[2:] {
+				if c < '0' || c > '9' {
+					id = id[:2+j]
+					break
+				}
+			}
+			if len(id) > 2 {
+				return id
+			}
+		}
+	}
+	return ""
 }
 
 func c14Replay(plan *Plan) *Violation {
